@@ -97,7 +97,7 @@ class Profile(object):
     def __init__(self, name, weights, fault_share=0.3, length=(3, 15), long_share=0.15,
                  long_length=(16, 40), max_objs=40, names=None, rare_name_share=0.05,
                  backends=("xml", "json", "yaml"), dtypes=None, detached_share=0.35,
-                 save_only_backends=()):
+                 save_only_backends=(), wfilter_share=0.0):
         self.name = name
         self.weights = dict(weights)
         self.fault_share = fault_share
@@ -111,6 +111,8 @@ class Profile(object):
         self.dtypes = dtypes or DTYPES
         self.detached_share = detached_share
         self.save_only_backends = save_only_backends
+        # share of runs in which the application has turned warnings into errors (-W error)
+        self.wfilter_share = wfilter_share
 
     def describe(self):
         return {"name": self.name, "fault_share": self.fault_share,
